@@ -217,6 +217,33 @@ Theorem forward_aligned : forall (A : Type) cnd fd enc xs ns,
 Proof. exact LazyModuleProofs.forward_aligned. Qed.
 Print Assumptions forward_aligned.
 
+(* COLUMN ASSOCIATION ("the column names in the same order as the tensor's column axis"): changing
+   one input column of a stype (any of its rows) moves only the corresponding output column of that
+   stype's encoder, and torch.cat(xs, dim=1) (StypeWiseFeatureEncoder.forward, model `hcat`) puts
+   column k of part p at position width(0) + ... + width(p-1) + k -- the position at which
+   forward_order lists its name. *)
+Theorem encoder_column_local : forall (S : Scalar) (c : config S) (x x' : input S) o o' k,
+    wf_config S c -> input_ok S c x -> input_ok S c x' ->
+    forward S c x = Some o -> forward S c x' = Some o' ->
+    (forall r j, j <> k -> get2 (cells S (cf_stats S c) x') r j = get2 (cells S (cf_stats S c) x) r j) ->
+    forall r j, j <> k -> get2 o' r j = get2 o r j.
+Proof. exact (fun S c => forward_with_column_local S (cf_post S c) c). Qed.
+Print Assumptions encoder_column_local.
+
+Theorem hcat_position : forall (A : Type) b (xs : list (mat A)) (widths : list nat) o r p k,
+    hcat b xs = Some o -> r < b ->
+    Forall2 (fun x w => rect w x = true) xs widths ->
+    k < nth p widths 0 ->
+    get2 o r (col_offset widths p + k) = get2 (nth p xs []) r k.
+Proof. exact @EncodersProofs.hcat_position. Qed.
+Print Assumptions hcat_position.
+
+Example hcat_position_example :
+  hcat 2 [[[1; 2]; [3; 4]]; [[5]; [6]]] = Some [[1; 2; 5]; [3; 4; 6]] /\
+  col_position [(st_embedding, 1); (st_numerical, 2)] st_embedding 0 = Some 2 /\
+  col_position [(st_embedding, 1); (st_numerical, 2)] st_numerical 1 = Some 1.
+Proof. vm_compute. repeat split; reflexivity. Qed.
+
 (* the hypotheses are satisfiable, and dict order does not matter: col_names_dict listed as
    {embedding, multicategorical, categorical} comes out categorical, multicategorical, embedding *)
 Example forward_order_example :
